@@ -1,0 +1,500 @@
+//! The small rewrite decisions behind the opt-in options (`use_field_init_shorthand`,
+//! `use_try_shorthand`, `condense_wildcard_suffixes`, `remove_nested_parens`, `merge_derives`,
+//! `normalize_doc_attributes`, `match_arm_leading_pipes`, `trailing_semicolon`,
+//! `match_block_trailing_comma`, `force_explicit_abi`) and the keyword tables of `utils.rs`,
+//! run on parsed snippets: the text is parsed the way `format_project` parses a file, every
+//! node of a kind listed below is handed to the real function, and what it returned is reported.
+
+use rustc_ast::ast;
+use rustc_ast::visit::{self, Visitor};
+use rustc_ast_pretty::pprust;
+use rustc_span::{DUMMY_SP, Pos};
+
+use crate::config::Config;
+use crate::parse::parser::Parser;
+use crate::parse::session::ParseSess;
+use crate::rewrite::{Rewrite, RewriteContext, RewriteResult};
+use crate::shape::{Indent, Shape};
+use crate::stmt::Stmt;
+use crate::visitor::FmtVisitor;
+use crate::{FormatReport, Input, utils};
+
+/// One node and what the code made of it.
+///
+/// kinds and keys (every value is text; a failed rewrite is `!err`):
+/// * `field` (a field of a struct literal): `name`, `short` (`is_shorthand`), `lit` (the
+///   initialiser is a literal), `expr` (the initialiser as `rewrite_field` renders it), `attrs`
+///   (their number), `out` (`rewrite_field`).
+/// * `patfield` (a field of a struct pattern): `name`, `short`, `pat` (the sub-pattern
+///   rendered), `attrs`, `out`.
+/// * `try` (a macro call in expression or statement position): `path` (`path_to_string`),
+///   `expr` (`convert_try_mac`, rendered; `none` when it declines).
+/// * `tuplepat` (a tuple or tuple-struct pattern): `n` (its length), `dotdot` (has a rest
+///   pattern), `suffix` (`count_wildcard_suffix_len`), `out`.
+/// * `paren` (a parenthesised expression): `out`.
+/// * `vis` (an item): `out` (`format_visibility`).
+/// * `extern` (a fn item, a bare fn type or a foreign mod): `what`, `explicit` / `implicit`
+///   (`format_extern` with `explicit_abi` true / false).
+/// * `attrs` (the attribute list of an item): `list` (one entry per attribute, see
+///   `attr_entry` below, joined by `\x1f`), `gaps` (for every attribute but the last: the number of
+///   line feeds and whether there is a `/` between it and the next, `n,s;…`), `runs` (the
+///   length of the derive run `take_while_with_pred` finds at every position), `out`.
+/// * `match` (a match expression): `arms` (per arm: leading pipe in the source, body class
+///   `b` default block / `u` other block / `e` other, is-last, whether `arm_comma` gives a
+///   comma; joined by `;`), `out`.
+/// * `block` (a block): `stmts` (per statement: kind `l` let / `i` item / `m` macro / `0` empty /
+///   `e<c>` expression / `s<c>` expression with semicolon, `<c>` = `j` jump, `w` loop, `o`
+///   other; `is_last_expr`; `semicolon_for_stmt`; `semicolon_for_expr` (`-` when not an
+///   expression); joined by `;`), `outs` (each statement rendered by `Stmt::rewrite`, `\x1f`).
+#[derive(Debug, Clone)]
+pub struct Rec {
+    pub kind: &'static str,
+    pub lo: usize,
+    pub hi: usize,
+    pub kv: Vec<(&'static str, String)>,
+}
+
+impl Rec {
+    pub fn get(&self, key: &str) -> Option<&str> {
+        self.kv
+            .iter()
+            .find(|(k, _)| *k == key)
+            .map(|(_, v)| v.as_str())
+    }
+}
+
+fn b(x: bool) -> String {
+    (if x { "1" } else { "0" }).to_owned()
+}
+
+fn res(r: RewriteResult) -> String {
+    r.unwrap_or_else(|_| "!err".to_owned())
+}
+
+struct Walk<'a, 'c> {
+    context: &'a RewriteContext<'c>,
+    shape: Shape,
+    base: usize,
+    recs: Vec<Rec>,
+}
+
+impl<'a, 'c> Walk<'a, 'c> {
+    fn rec(&mut self, kind: &'static str, span: rustc_span::Span, kv: Vec<(&'static str, String)>) {
+        self.recs.push(Rec {
+            kind,
+            lo: span.lo().to_usize() - self.base,
+            hi: span.hi().to_usize() - self.base,
+            kv,
+        });
+    }
+
+    fn try_mac(&mut self, mac: &ast::MacCall) {
+        let expr = match crate::macros::convert_try_mac(mac, self.context) {
+            None => "none".to_owned(),
+            Some(e) => res(e.rewrite_result(self.context, self.shape)),
+        };
+        let kv = vec![("path", pprust::path_to_string(&mac.path)), ("expr", expr)];
+        self.rec("try", mac.span(), kv);
+    }
+
+    fn ext(&mut self, what: &'static str, span: rustc_span::Span, ext: ast::Extern) {
+        let kv = vec![
+            ("what", what.to_owned()),
+            ("explicit", utils::format_extern(ext, true).into_owned()),
+            ("implicit", utils::format_extern(ext, false).into_owned()),
+        ];
+        self.rec("extern", span, kv);
+    }
+
+    fn attrs(&mut self, attrs: &[ast::Attribute]) {
+        if attrs.is_empty() {
+            return;
+        }
+        let list: Vec<String> = attrs.iter().map(|a| attr_entry(self.context, a)).collect();
+        let gaps: Vec<String> = attrs
+            .windows(2)
+            .map(|w| {
+                let s = self
+                    .context
+                    .snippet(utils::mk_sp(w[0].span.hi(), w[1].span.lo()));
+                format!("{},{}", utils::count_newlines(s), b(s.contains('/')))
+            })
+            .collect();
+        let runs: Vec<String> = (0..attrs.len())
+            .map(|i| {
+                crate::attr::verif_local::derive_run_len(self.context, &attrs[i..]).to_string()
+            })
+            .collect();
+        let span = utils::mk_sp(attrs[0].span.lo(), attrs[attrs.len() - 1].span.hi());
+        let kv = vec![
+            ("list", list.join("\x1f")),
+            ("gaps", gaps.join(";")),
+            ("runs", runs.join(",")),
+            ("out", res(attrs.rewrite_result(self.context, self.shape))),
+        ];
+        self.rec("attrs", span, kv);
+    }
+}
+
+/// One attribute: `d<i|o>:<paths joined by ,>` a derive whose list parses, `D<i|o>` one whose
+/// list does not, `c<i|o>:<text>` a doc comment (its source text), `v<i|o>:<value>` `doc = "…"`
+/// (the unescaped value), `x<i|o>:<source text>` anything else.
+fn attr_entry(context: &RewriteContext<'_>, a: &ast::Attribute) -> String {
+    let style = match a.style {
+        ast::AttrStyle::Inner => 'i',
+        ast::AttrStyle::Outer => 'o',
+    };
+    if a.is_doc_comment() {
+        return format!("c{style}:{}", context.snippet(a.span));
+    }
+    if a.has_name(rustc_span::sym::derive) {
+        return match a.meta_item_list() {
+            Some(l) => format!(
+                "d{style}:{}",
+                l.iter()
+                    .map(|m| context.snippet(m.span()).to_owned())
+                    .collect::<Vec<_>>()
+                    .join(",")
+            ),
+            None => format!("D{style}"),
+        };
+    }
+    if let Some(meta) = a.meta() {
+        if meta.has_name(rustc_span::sym::doc) {
+            if let Some(v) = meta.value_str() {
+                return format!("v{style}:{}", v.as_str());
+            }
+        }
+    }
+    format!("x{style}:{}", context.snippet(a.span))
+}
+
+fn expr_class(e: &ast::Expr) -> char {
+    match e.kind {
+        ast::ExprKind::Ret(..) | ast::ExprKind::Continue(..) | ast::ExprKind::Break(..) => 'j',
+        ast::ExprKind::While(..) | ast::ExprKind::Loop(..) | ast::ExprKind::ForLoop { .. } => 'w',
+        _ => 'o',
+    }
+}
+
+impl<'a, 'c, 'ast> Visitor<'ast> for Walk<'a, 'c> {
+    fn visit_expr(&mut self, ex: &'ast ast::Expr) {
+        match ex.kind {
+            ast::ExprKind::Struct(ref se) => {
+                for f in &se.fields {
+                    let expr = f.expr.rewrite_result(self.context, self.shape);
+                    let kv = vec![
+                        ("name", self.context.snippet(f.ident.span).to_owned()),
+                        ("short", b(f.is_shorthand)),
+                        ("lit", b(matches!(f.expr.kind, ast::ExprKind::Lit(_)))),
+                        ("expr", res(expr)),
+                        ("attrs", f.attrs.len().to_string()),
+                        (
+                            "out",
+                            res(crate::expr::rewrite_field(self.context, f, self.shape, 0)),
+                        ),
+                    ];
+                    self.rec("field", f.span, kv);
+                }
+            }
+            ast::ExprKind::Paren(..) => {
+                let kv = vec![("out", res(ex.rewrite_result(self.context, self.shape)))];
+                self.rec("paren", ex.span, kv);
+            }
+            ast::ExprKind::MacCall(ref mac) => self.try_mac(mac),
+            ast::ExprKind::Match(_, ref arms, _) => {
+                let n = arms.len();
+                let info: Vec<String> = arms
+                    .iter()
+                    .enumerate()
+                    .map(|(i, a)| {
+                        let pipe = self.context.snippet(a.pat.span).starts_with('|');
+                        let (class, comma) = match a.body.as_deref() {
+                            Some(body) => (
+                                match body.kind {
+                                    ast::ExprKind::Block(ref blk, _) => match blk.rules {
+                                        ast::BlockCheckMode::Default => 'b',
+                                        _ => 'u',
+                                    },
+                                    _ => 'e',
+                                },
+                                crate::matches::verif_local::arm_comma(
+                                    self.context.config,
+                                    body,
+                                    i + 1 == n,
+                                ),
+                            ),
+                            None => ('-', "-"),
+                        };
+                        format!("{},{class},{},{}", b(pipe), b(i + 1 == n), b(comma == ","))
+                    })
+                    .collect();
+                let kv = vec![
+                    ("arms", info.join(";")),
+                    ("out", res(ex.rewrite_result(self.context, self.shape))),
+                ];
+                self.rec("match", ex.span, kv);
+            }
+            _ => {}
+        }
+        visit::walk_expr(self, ex);
+    }
+
+    fn visit_pat(&mut self, p: &'ast ast::Pat) {
+        match p.kind {
+            ast::PatKind::Struct(_, _, ref fields, _) => {
+                for f in fields {
+                    let kv = vec![
+                        (
+                            "name",
+                            utils::rewrite_ident(self.context, f.ident).to_owned(),
+                        ),
+                        ("short", b(f.is_shorthand)),
+                        ("pat", res(f.pat.rewrite_result(self.context, self.shape))),
+                        ("attrs", f.attrs.len().to_string()),
+                        ("out", res(f.rewrite_result(self.context, self.shape))),
+                    ];
+                    self.rec("patfield", f.span, kv);
+                }
+            }
+            ast::PatKind::Tuple(ref pats) | ast::PatKind::TupleStruct(_, _, ref pats) => {
+                let suffix = if pats.is_empty() {
+                    0
+                } else {
+                    crate::patterns::verif_local::wildcard_suffix_len(
+                        self.context,
+                        pats,
+                        p.span,
+                        self.shape,
+                    )
+                };
+                let kv = vec![
+                    ("n", pats.len().to_string()),
+                    ("dotdot", b(pats.iter().any(|q| q.is_rest()))),
+                    ("suffix", suffix.to_string()),
+                    ("out", res(p.rewrite_result(self.context, self.shape))),
+                ];
+                self.rec("tuplepat", p.span, kv);
+            }
+            _ => {}
+        }
+        visit::walk_pat(self, p);
+    }
+
+    fn visit_ty(&mut self, t: &'ast ast::Ty) {
+        if let ast::TyKind::BareFn(ref bf) = t.kind {
+            self.ext("barefn", t.span, bf.ext);
+        }
+        visit::walk_ty(self, t);
+    }
+
+    fn visit_item(&mut self, i: &'ast ast::Item) {
+        self.attrs(&i.attrs);
+        let vis = utils::format_visibility(self.context, &i.vis).into_owned();
+        self.rec("vis", i.vis.span, vec![("out", vis)]);
+        match i.kind {
+            ast::ItemKind::Fn(ref f) => self.ext("fn", i.span, f.sig.header.ext),
+            ast::ItemKind::ForeignMod(ref fm) => {
+                self.ext("mod", i.span, ast::Extern::from_abi(fm.abi, DUMMY_SP))
+            }
+            _ => {}
+        }
+        visit::walk_item(self, i);
+    }
+
+    fn visit_block(&mut self, blk: &'ast ast::Block) {
+        let stmts = Stmt::from_ast_nodes(blk.stmts.iter());
+        let mut info = vec![];
+        let mut outs = vec![];
+        for s in &stmts {
+            let node = s.as_ast_node();
+            let last = crate::stmt::verif_local::is_last_expr(s);
+            let (kind, sfe) = match node.kind {
+                ast::StmtKind::Let(..) => ("l".to_owned(), "-".to_owned()),
+                ast::StmtKind::Item(..) => ("i".to_owned(), "-".to_owned()),
+                ast::StmtKind::MacCall(..) => ("m".to_owned(), "-".to_owned()),
+                ast::StmtKind::Empty => ("0".to_owned(), "-".to_owned()),
+                ast::StmtKind::Expr(ref e) => (
+                    format!("e{}", expr_class(e)),
+                    b(utils::semicolon_for_expr(self.context, e)),
+                ),
+                ast::StmtKind::Semi(ref e) => (
+                    format!("s{}", expr_class(e)),
+                    b(utils::semicolon_for_expr(self.context, e)),
+                ),
+            };
+            info.push(format!(
+                "{kind},{},{},{sfe}",
+                b(last),
+                b(utils::semicolon_for_stmt(self.context, node, last))
+            ));
+            outs.push(res(s.rewrite_result(self.context, self.shape)));
+        }
+        let kv = vec![("stmts", info.join(";")), ("outs", outs.join("\x1f"))];
+        self.rec("block", blk.span, kv);
+        visit::walk_block(self, blk);
+    }
+
+    fn visit_stmt(&mut self, s: &'ast ast::Stmt) {
+        if let ast::StmtKind::MacCall(ref m) = s.kind {
+            self.try_mac(&m.mac);
+        }
+        visit::walk_stmt(self, s);
+    }
+}
+
+/// Parses `src` as a file and reports every node of the kinds [`Rec`] lists, in the order a
+/// pre-order walk meets them. Rewrites take a shape as wide as `max_width` at no indentation.
+/// `None` when the text does not parse.
+pub fn analyze(src: &str, config: &Config) -> Option<Vec<Rec>> {
+    let mut config = config.clone();
+    config.set().show_parse_errors(false);
+    rustc_span::create_session_if_not_set_then(config.edition().into(), |_| {
+        let psess = ParseSess::new(&config).ok()?;
+        let krate = Parser::parse_crate(Input::Text(src.to_owned()), &psess).ok()?;
+        let provider = psess.snippet_provider(krate.spans.inner_span);
+        let base = provider.start_pos().to_usize();
+        let visitor = FmtVisitor::from_psess(&psess, &config, &provider, FormatReport::new());
+        let context = visitor.get_context();
+        let mut walk = Walk {
+            context: &context,
+            shape: Shape::indented(Indent::empty(), &config),
+            base,
+            recs: vec![],
+        };
+        walk.attrs(&krate.attrs);
+        for item in &krate.items {
+            walk.visit_item(item);
+        }
+        Some(walk.recs)
+    })
+}
+
+/// `DocCommentFormatter` on a literal's value: what `#[doc = "…"]` (`inner` false) or
+/// `#![doc = "…"]` (`inner` true) turns into before `rewrite_doc_comment` sees it.
+pub fn doc_comment_text(literal: &str, inner: bool) -> String {
+    crate::attr::verif_local::doc_comment_text(literal, inner)
+}
+
+/// The keyword tables of `utils.rs`: (function, variant, what it returns) for every variant of
+/// the enum each function matches on.
+pub fn keywords() -> Vec<(&'static str, &'static str, String)> {
+    use ast::{Const, CoroutineKind, Defaultness, IsAuto, Mutability, Safety};
+    let id = ast::NodeId::from_u32(0);
+    let coro =
+        |k: fn(rustc_span::Span, ast::NodeId, ast::NodeId) -> CoroutineKind| k(DUMMY_SP, id, id);
+    let mk_async = |span, closure_id, return_impl_trait_id| CoroutineKind::Async {
+        span,
+        closure_id,
+        return_impl_trait_id,
+    };
+    let mk_gen = |span, closure_id, return_impl_trait_id| CoroutineKind::Gen {
+        span,
+        closure_id,
+        return_impl_trait_id,
+    };
+    let mk_async_gen = |span, closure_id, return_impl_trait_id| CoroutineKind::AsyncGen {
+        span,
+        closure_id,
+        return_impl_trait_id,
+    };
+    let s = |x: &str| x.to_owned();
+    vec![
+        (
+            "format_coro",
+            "Async",
+            s(utils::format_coro(&coro(mk_async))),
+        ),
+        ("format_coro", "Gen", s(utils::format_coro(&coro(mk_gen)))),
+        (
+            "format_coro",
+            "AsyncGen",
+            s(utils::format_coro(&coro(mk_async_gen))),
+        ),
+        (
+            "format_constness",
+            "Yes",
+            s(utils::format_constness(Const::Yes(DUMMY_SP))),
+        ),
+        (
+            "format_constness",
+            "No",
+            s(utils::format_constness(Const::No)),
+        ),
+        (
+            "format_constness_right",
+            "Yes",
+            s(utils::format_constness_right(Const::Yes(DUMMY_SP))),
+        ),
+        (
+            "format_constness_right",
+            "No",
+            s(utils::format_constness_right(Const::No)),
+        ),
+        (
+            "format_defaultness",
+            "Default",
+            s(utils::format_defaultness(Defaultness::Default(DUMMY_SP))),
+        ),
+        (
+            "format_defaultness",
+            "Final",
+            s(utils::format_defaultness(Defaultness::Final)),
+        ),
+        (
+            "format_safety",
+            "Unsafe",
+            s(utils::format_safety(Safety::Unsafe(DUMMY_SP))),
+        ),
+        (
+            "format_safety",
+            "Safe",
+            s(utils::format_safety(Safety::Safe(DUMMY_SP))),
+        ),
+        (
+            "format_safety",
+            "Default",
+            s(utils::format_safety(Safety::Default)),
+        ),
+        ("format_auto", "Yes", s(utils::format_auto(IsAuto::Yes))),
+        ("format_auto", "No", s(utils::format_auto(IsAuto::No))),
+        (
+            "format_mutability",
+            "Mut",
+            s(utils::format_mutability(Mutability::Mut)),
+        ),
+        (
+            "format_mutability",
+            "Not",
+            s(utils::format_mutability(Mutability::Not)),
+        ),
+    ]
+}
+
+/// `format_extern` on an ABI given as the text between the quotes (`None` = `Extern::None`,
+/// `Some(None)` = `extern` without a string), with `explicit_abi` true and false.
+pub fn format_extern(abi: Option<Option<&str>>) -> (String, String) {
+    rustc_span::create_session_if_not_set_then(rustc_span::edition::Edition::Edition2021, |_| {
+        let ext = match abi {
+            None => ast::Extern::None,
+            Some(None) => ast::Extern::Implicit(DUMMY_SP),
+            Some(Some(s)) => {
+                let sym = rustc_span::Symbol::intern(s);
+                ast::Extern::Explicit(
+                    ast::StrLit {
+                        symbol: sym,
+                        suffix: None,
+                        symbol_unescaped: sym,
+                        style: ast::StrStyle::Cooked,
+                        span: DUMMY_SP,
+                    },
+                    DUMMY_SP,
+                )
+            }
+        };
+        (
+            utils::format_extern(ext, true).into_owned(),
+            utils::format_extern(ext, false).into_owned(),
+        )
+    })
+}
